@@ -81,12 +81,6 @@ var defaultExcludeAv4 = []*net.IPNet{
 	mustCIDR("255.255.255.255/32"),
 }
 
-// compileConfig parses cfg.DNS64 into a runtime-friendly form. Bad
-// entries are logged and skipped (matching the views / accesslist
-// pattern), so a single typo in one prefix doesn't disable the
-// middleware. Returns nil when DNS64 is not enabled or has no
-// usable prefix — New translates that into a typed-nil Handler so
-// the registry skips the middleware entirely.
 // overlappingPrefix returns the network of an already accepted prefix that
 // contains p's address or whose address p contains, nil when there is none.
 func overlappingPrefix(accepted []compiledPrefix, p *net.IPNet) *net.IPNet {
@@ -98,6 +92,12 @@ func overlappingPrefix(accepted []compiledPrefix, p *net.IPNet) *net.IPNet {
 	return nil
 }
 
+// compileConfig parses cfg.DNS64 into a runtime-friendly form. Bad
+// entries are logged and skipped (matching the views / accesslist
+// pattern), so a single typo in one prefix doesn't disable the
+// middleware. Returns nil when DNS64 is not enabled or has no
+// usable prefix — New translates that into a typed-nil Handler so
+// the registry skips the middleware entirely.
 func compileConfig(cfg *config.Config) *compiled {
 	c := cfg.DNS64
 	if !c.Enabled {
